@@ -562,6 +562,7 @@ RULES = {
     "R3a": Rule("R3a", "(X) + (Y) -> Add::add((X), (Y))", "( $$x ) + ( $$y )", "Add :: add ( ( $$x ) , ( $$y ) )"),
     "R3s": Rule("R3s", "(X) - (Y) -> Sub::sub((X), (Y))", "( $$x ) - ( $$y )", "Sub :: sub ( ( $$x ) , ( $$y ) )"),
     "R3d": Rule("R3d", "&X.data - Y -> Sub::sub(&X.data, Y)", "& $x . data - $y", "Sub :: sub ( & $x . data , $y )"),
+    "R3p": Rule("R3p", "&X * &Y -> Mul::mul(&X, &Y)", "& $x * & $y", "Mul :: mul ( & $x , & $y )"),
     "R3m": Rule("R3m", "(X) * (Y) -> Mul::mul((X), (Y))", "( $$x ) * ( $$y )", "Mul :: mul ( ( $$x ) , ( $$y ) )"),
     # reversed mutable iteration over a Vec/slice -> index loop counting down (definition of Rev<IterMut>)
     "R10r": Rule("R10r", "for d in V.iter_mut().rev() { BODY } -> { let mut i__ = V.len(); while i__ > 0 { i__ -= 1; let d = &mut V.as_mut_slice()[i__]; BODY } }",
